@@ -28,7 +28,7 @@ import (
 var errWriter = errors.New("verif: caller's writer refuses")
 
 type faultWriter struct {
-	failFrom int // fail from this Write call on (1-based); 0 = never
+	failFrom int  // fail from this Write call on (1-based); 0 = never
 	full     bool // a failing call still takes everything it is given (and says so) before reporting its error
 	calls    int
 	got      bytes.Buffer
@@ -104,6 +104,62 @@ func runEntry(tpl *pongo2.Template, entry string, ctx pongo2.Context, w *faultWr
 	return
 }
 
+// holdWriter takes part in an execution the way a slow consumer does: its first Write waits (while it holds the bytes it
+// was given, as io.Writer allows for the duration of the call) until it is released, and only then copies them.
+type holdWriter struct {
+	got     bytes.Buffer
+	entered chan struct{}
+	release chan struct{}
+	held    bool
+}
+
+func (w *holdWriter) Write(p []byte) (int, error) {
+	if !w.held {
+		w.held = true
+		close(w.entered)
+		<-w.release
+	}
+	w.got.Write(p)
+	return len(p), nil
+}
+
+// overlapEntries runs entry point `a` of the template with a slow consumer and, while that execution is under way, entry
+// point `b` of the same template to completion; returns what each caller received.
+func overlapEntries(tpl *pongo2.Template, ctx pongo2.Context, a, b string) (first, second string, problem string) {
+	hw := &holdWriter{entered: make(chan struct{}), release: make(chan struct{})}
+	done := make(chan error, 1)
+	go func() {
+		defer func() {
+			if r := recover(); r != nil {
+				done <- fmt.Errorf("panic: %v", r)
+			}
+		}()
+		if a == "Unbuffered" {
+			done <- tpl.ExecuteWriterUnbuffered(ctx, hw)
+		} else {
+			done <- tpl.ExecuteWriter(ctx, hw)
+		}
+	}()
+	select {
+	case <-hw.entered:
+	case err := <-done:
+		return hw.got.String(), "", fmt.Sprintf("the first execution ended before writing (%v)", err)
+	case <-time.After(5 * time.Second):
+		return "", "", "SKIP: the first execution never wrote"
+	}
+	w2 := &faultWriter{}
+	out2, err2, pan2 := runEntry(tpl, b, ctx, w2)
+	if b == "ExecuteWriter" || b == "Unbuffered" {
+		out2 = w2.got.String()
+	}
+	close(hw.release)
+	err1 := <-done
+	if err1 != nil || err2 != nil || pan2 != "" {
+		problem = fmt.Sprintf("errors: %v / %v %s", err1, err2, pan2)
+	}
+	return hw.got.String(), out2, problem
+}
+
 func cmdC14Replay(args []string) {
 	rep := newReport("c14-replay")
 	seen := map[string]bool{}
@@ -171,6 +227,24 @@ func cmdC14Replay(args []string) {
 			}
 			if w.got.String() != chunksText(h.Sink) {
 				viol(fmt.Sprintf("the caller's writer received %q, specification %q", w.got.String(), chunksText(h.Sink)))
+			}
+			// two executions of the template under way at once (a slow consumer holds the first one inside its first Write):
+			// each caller still receives exactly the full output - the variants agree, whoever else is executing
+			if h.FailAt == 0 && h.WFail == 0 && gotErr == "" && !seen["overlap|"+src.String()+"|"+inc+"|"+h.Entry] {
+				seen["overlap|"+src.String()+"|"+inc+"|"+h.Entry] = true
+				full := w.got.String()
+				if h.Entry == "Execute" || h.Entry == "ExecuteBytes" {
+					full = out
+				}
+				for _, first := range []string{"Unbuffered", "ExecuteWriter"} {
+					o1, o2, prob := overlapEntries(tpl, ctx, first, h.Entry)
+					if strings.HasPrefix(prob, "SKIP") {
+						continue
+					}
+					if prob != "" || o1 != full || o2 != full {
+						viol(fmt.Sprintf("while an %s execution of the same template was under way (held in its first Write): that execution delivered %q, this one %q, alone each delivers %q %s", first, o1, o2, full, prob))
+					}
+				}
 			}
 			if rep.Checked%37 == 1 {
 				rep.sample(map[string]interface{}{"template": src.String(), "include": inc, "entry": h.Entry, "writer_fails_from": h.WFail,
@@ -464,6 +538,23 @@ func cmdC04Replay(args []string) {
 					if err == nil && out != want.Out {
 						rep.viol(key+fmt.Sprintf(": rendered %q, a fresh compile executed once renders %q", out, want.Out), det)
 						break
+					}
+					if err != nil && firstLine(err.Error()) != firstLine(want.Err) {
+						rep.viol(key+fmt.Sprintf(": error %q, a fresh compile executed once: %q", firstLine(err.Error()), firstLine(want.Err)), det)
+						break
+					}
+					// the error of an execution is its own: positioned in the text of this template (or of one of its files) at the token it names
+					if pe := asPongoError(err); pe != nil && pe.Line > 0 {
+						named, ok := p.Src, pe.Filename == "<string>"
+						if !ok {
+							named, ok = p.Files[pe.Filename]
+						}
+						if ok {
+							if prob := checkErrorPosition(pe, named, false); prob != "" {
+								rep.viol(key+": the error does not belong to this execution: "+prob+" ("+firstLine(err.Error())+")", det)
+								break
+							}
+						}
 					}
 					if err != nil && step.Entry != "Unbuffered" && out != "" {
 						rep.viol(key+fmt.Sprintf(": a failed execution handed back %q", out), det)
